@@ -478,6 +478,18 @@ func (c *Ctx) bin(op Op, a, b *Term) *Term {
 		if b.IsConst() {
 			return c.bin(OpAdd, a, c.Const(w, -b.Val))
 		}
+		// (x + k) - x = k ; (x + k1) - (x + k2) = k1 - k2
+		if a.Op == OpAdd && a.Args[1].IsConst() {
+			if a.Args[0] == b {
+				return a.Args[1]
+			}
+			if b.Op == OpAdd && b.Args[1].IsConst() && a.Args[0] == b.Args[0] {
+				return c.Const(w, a.Args[1].Val-b.Args[1].Val)
+			}
+		}
+		if b.Op == OpAdd && b.Args[1].IsConst() && b.Args[0] == a {
+			return c.Const(w, -b.Args[1].Val)
+		}
 	case OpMul:
 		if a.IsConst() {
 			a, b = b, a
